@@ -688,7 +688,7 @@ class Interp:
             p = f.get('path', '')
             if f.get('k') == 'path' and f.get('res') == 'Local':
                 fv = self.val(f, env)
-                if isinstance(fv, tuple) and fv and fv[0] in ('closure', 'recfn'):
+                if isinstance(fv, tuple) and fv and fv[0] in ('closure', 'recfn', 'pyfn'):
                     return self.apply(fv, [self.val(a, env) for a in e.get('args', [])])
             if f.get('k') == 'closure':
                 return self.apply(('closure', f, dict(env)), [self.val(a, env) for a in e.get('args', [])])
